@@ -1160,3 +1160,67 @@ def split_pieces_on_empty(ctx, repo, fns, clause, rule="GRD-split"):
                            f"{norm(c)[:50]} returns one piece even when {norm(c.args[0])} is empty ({why}): a zero-row input is partitioned into one "
                            f"phantom empty group, where the index loop (and the compiled twin) yield no group at all", clause=clause)
     return n
+
+
+def names_as_given(ctx, fn, param, clause, rule="ARG-names"):
+    """ARG-names: a `*names` parameter carries the caller's names IN THE CALLER'S ORDER.  (a) No value derived from it by
+    set() / frozenset() / sorted() / reversed() / np.unique() is bound to the parameter, to an attribute of self or yielded /
+    returned: the order of the names is the order of the result's columns and of its sort.  (b) The tuple is unwrapped to one
+    of its own elements (`names = names[0]`, "accept a list too") only under a test that this element is not a string: a
+    single *name* would otherwise be taken for a collection of names and matched character by character / by substring.
+    Uses of such calls in tests and error messages are not touched."""
+    ctx.rule(rule, "the names of a *names parameter are used in the caller's order, and a single name is never unwrapped into its characters")
+    REORDER = {"set", "frozenset", "sorted", "reversed", "np.unique", "numpy.unique"}
+    parents = {}
+    for p in ast.walk(fn.node):
+        for c in ast.iter_child_nodes(p):
+            parents[c] = p
+    derived = {param}
+    stmts = [x for x in body_nodes(fn.node) if isinstance(x, (ast.Assign, ast.Return, ast.Expr, ast.AugAssign))]
+    n = 0
+    for _ in range(2):
+        for s in stmts:
+            if isinstance(s, ast.Assign) and any(isinstance(y, ast.Name) and y.id in derived for y in ast.walk(s.value)):
+                for t in s.targets:
+                    if isinstance(t, ast.Name):
+                        derived.add(t.id)
+    for s in stmts:
+        value = s.value
+        if isinstance(value, (ast.Yield, ast.YieldFrom)):
+            value = value.value
+        if value is None:
+            continue
+        binds = isinstance(s, ast.Return) or isinstance(s.value, (ast.Yield, ast.YieldFrom)) if not isinstance(s, (ast.Assign, ast.AugAssign)) else True
+        if not binds:
+            continue
+        if isinstance(s, ast.Assign) and not any((isinstance(t, ast.Name) and t.id in derived) or
+                                                 (isinstance(t, ast.Attribute) and norm(t.value) == "self") for t in s.targets):
+            continue
+        uses = any(isinstance(y, ast.Name) and y.id in derived for y in ast.walk(value))
+        if not uses:
+            continue
+        n += 1
+        bad = [c for c in ast.walk(value) if isinstance(c, ast.Call) and norm(c.func) in REORDER
+               and any(isinstance(y, ast.Name) and y.id in derived for y in ast.walk(c))]
+        ctx.ob(rule, fn, norm(s)[:70], s, not bad,
+               f"{param} keeps the caller's order here" if not bad else
+               f"`{norm(bad[0])[:50]}` re-orders / de-duplicates the names given as {param}: the result's columns and its ordering follow "
+               f"the names in the order the caller wrote them", clause=clause)
+        # (b) unwrapping
+        if isinstance(s, ast.Assign) and isinstance(value, ast.Subscript) and isinstance(value.value, ast.Name) and value.value.id in derived \
+                and any(isinstance(t, ast.Name) and t.id in derived for t in s.targets) and isinstance(value.slice, ast.Constant):
+            elem = norm(value)
+            guarded, p = False, s
+            while p in parents:
+                q = parents[p]
+                if isinstance(q, ast.If) and p in q.body:
+                    for c in ast.walk(q.test):
+                        if isinstance(c, ast.Call) and norm(c.func) == "isinstance" and c.args and norm(c.args[0]) == elem:
+                            guarded = True
+                p = q
+            n += 1
+            ctx.ob(rule, fn, "unwrap " + norm(s)[:60], s, guarded,
+                   f"{elem} is unwrapped under a type test of that element" if guarded else
+                   f"`{norm(s)[:50]}` takes the single name {elem} for a collection of names whenever one name is given: "
+                   f"membership in a string is a substring test", clause=clause)
+    return n
